@@ -12,7 +12,9 @@ META = {
     "rule": ("case = proper subset of an n_il x n_xl grid (2..12 each) built so that every inline and crossline keeps "
              ">= 1 trace (one trace per line first, then a drawn subset), independent starts (negative, zero-crossing, "
              "positive) and increments 1..7, inline-major ascending trace order, arbitrary header content, mode in "
-             "{heuristic, thorough, exhaustive}, any valid setting, + 1-10 read calls; oracle: reported grid = range "
+             "{heuristic, thorough, exhaustive}, any valid setting, + 1-10 read calls; one case in three is preceded, in the "
+             "same process and under the same output name, by the conversion and trace-wise reading of the survey with the "
+             "point-reflected hole pattern; oracle: reported grid = range "
              "of line numbers with each axis's own increment, trace count, structured False, trace i / header i = "
              "i-th source trace image / header, get_tracefield_values = grid with zeros at holes, every volume-style "
              "read = slice of the ZFP image of the zero-filled zero-extended grid (bitwise), spec-only decode likewise; "
@@ -38,7 +40,8 @@ def cases(draw):
     mode = draw(st.sampled_from(["heuristic", "thorough", "exhaustive"]))
     n = draw(st.integers(1, 10))
     return {"src": src, "setting": {"rate": rate, "blockshape": list(bs)}, "mode": mode,
-            "ops": [draw(ops.abstract_op(METHODS)) for _ in range(n)], "shared_reader": draw(st.booleans())}
+            "ops": [draw(ops.abstract_op(METHODS)) for _ in range(n)], "shared_reader": draw(st.booleans()),
+            "prior": draw(st.integers(0, 2)) == 0}
 
 
 def hole_class(src):
@@ -55,6 +58,25 @@ def run_case(case, ctx):
     src = case["src"]
     rate, bs = case["setting"]["rate"], tuple(case["setting"]["blockshape"])
     out = os.path.join(d, "o.sgz")
+    prior = None
+    if case.get("prior"):
+        # state that is not in the arguments: the same process has already converted, under the same output name, and
+        # read trace-wise another irregular survey of the same grid and trace count whose holes lie elsewhere (the
+        # point reflection of this one's); the file is then replaced.  Nothing remembered from it may show.
+        grid_n = src["n_il"] * src["n_xl"]
+        mirrored = sorted(grid_n - 1 - g for g in src["keep"])
+        prior = "prior-same-holes" if mirrored == sorted(src["keep"]) else "prior-other-holes"
+        try:
+            pd_ = os.path.join(d, "prior"); os.makedirs(pd_, exist_ok=True)
+            P = sources.build(dict(src, keep=mirrored), pd_)
+            conv.segy_convert(P.path, out, rate, bs, header_detection=case["mode"])
+            from seismic_zfp.read import SgzReader as _R
+            with _R(out) as r0:
+                for i in sorted({0, P.n - 1, P.n // 2}):
+                    r0.get_trace(i); r0.gen_trace_header(i)
+                r0.get_tracefield_values(189); r0.read_inline(0)
+        except Exception:
+            prior = "prior-failed"
     conv.segy_convert(S.path, out, rate, bs, header_detection=case["mode"])
     n_il, n_xl, ns = src["n_il"], src["n_xl"], src["ns"]
     grid = np.zeros((n_il * n_xl, ns), dtype=np.float32)
@@ -73,6 +95,8 @@ def run_case(case, ctx):
     labels = ops.run_ops(out, T, aops, fresh=not case.get("shared_reader"))
     if case.get("shared_reader"):
         labels.append("shared-reader")
+    if prior:
+        labels.append(prior)
     # trace i is the i-th source trace
     from seismic_zfp.read import SgzReader
     with SgzReader(out) as r:
